@@ -380,6 +380,9 @@ func (a *apiServer) controllerWrite(inc *incarnation, sub, what string, obj *v3.
 		h.ctlWrites++
 		h.r.Logf("ctl#%d: UpdateStatus %s", inc.id, poolLine(stored))
 		h.afterConditionWrite(inc, stored, wasTrue)
+		if !wasTrue && isTrue(stored) && !stored.Spec.Disabled && stored.DeletionTimestamp == nil && h.interleave && h.r.Src.Chance(h.pEagerClaim, "eager_claim") {
+			h.claimBlock(stored)
+		}
 		h.afterAPIChange()
 		return stored.DeepCopy(), nil
 	}
